@@ -436,7 +436,7 @@ def main(argv=None):
         return cmd_digests(prop, tier, vseed, [int(x) for x in a.digests.split(',')], a.warmup)
     if a.canary:
         eng = load_engine(prop)
-        b = eng.budget('quick')
+        b = eng.budget('quick', prop) if eng.budget.__code__.co_argcount >= 2 else eng.budget('quick')
         return cmd_canary(prop, a.canary, tier, vseed,
                           a.runs or b.get('canary_runs', max(200, b['runs'] // 4)),
                           a.wall or b.get('canary_wall', 120))
@@ -455,7 +455,7 @@ def run_check(prop, tier, vseed, a):
     t0 = time.time()
     _silence()
     eng = load_engine(prop)
-    budget = eng.budget(tier)
+    budget = eng.budget(tier, prop) if eng.budget.__code__.co_argcount >= 2 else eng.budget(tier)
     n_runs = a.runs or budget['runs']
     wall = a.wall or budget['wall']
     nproc = int(os.environ.get('VERIF_PROCS', os.cpu_count() or 4))
